@@ -1176,8 +1176,13 @@ MOVED_DIFF = (b"diff --git a/f.zzz b/f.zzz\n--- a/f.zzz\n+++ b/f.zzz\n@@ -1,2 +1
 def _home_with_gitconfig(name, body):
     d = os.path.join(BUILD, "home-c12-" + name)
     os.makedirs(d, exist_ok=True)
-    with open(os.path.join(d, ".gitconfig"), "w") as f:
-        f.write(body)
+    path = os.path.join(d, ".gitconfig")
+    old = open(path).read() if os.path.exists(path) else None
+    if old != body:                       # atomic: concurrent runs may be reading it
+        tmp = path + ".%d.tmp" % os.getpid()
+        with open(tmp, "w") as f:
+            f.write(body)
+        os.replace(tmp, path)
     return d
 
 
@@ -1249,6 +1254,75 @@ def indirect_styles_oracle(ctx, rep):
                    stderr=err.decode("utf-8", "replace")[-200:]))
 
 
+SBS_DIFF = (b"diff --git a/f.rs b/f.rs\n--- a/f.rs\n+++ b/f.rs\n@@ -1,2 +1,2 @@\n fn zeroq() {}\n"
+            b'-    let name = "betaq one";\n+    let name = "deltaq one";\n')
+
+
+def given_style_oracle(ctx, rep):
+    """A style the user gave (command line or git config) is painted as given, also where set_options rewrites
+    defaults: side-by-side x {minus-style, minus-emph-style} alone / together, from the command line / git config,
+    values starting with `normal ` and not, with the default syntax theme on a highlighted language. The painted
+    cells and the --show-config value are compared with the reading of the *given* string."""
+    values = ["normal 124", "normal 52 bold", "red 124", "NORMAL 88 ul"]
+    jobs = []
+    for v in values:
+        for which in (("minus-emph-style",), ("minus-style",), ("minus-style", "minus-emph-style")):
+            for source in ("cli", "gitconfig"):
+                for mode in (["--side-by-side"], [], ["--side-by-side", "--line-numbers"]):
+                    jobs.append((v, which, source, mode))
+
+    homes = {}
+    for v, which, source, mode in jobs:      # written before any run starts
+        if source == "gitconfig" and (v, which) not in homes:
+            homes[(v, which)] = _home_with_gitconfig("given-" + re.sub(r"\W", "", v + "".join(which)),
+                                                     "[delta]\n" + "".join("    %s = %s\n" % (o, v) for o in which))
+
+    def run(job):
+        v, which, source, mode = job
+        args = ["--paging=never", "--width=120", "--true-color=never"] + mode
+        env = {}
+        if source == "cli":
+            args = ["--no-gitconfig"] + args + ["--%s=%s" % (o, v) for o in which]
+        else:
+            env = {"HOME": homes[(v, which)]}
+        rc, out, err = ctx.run_delta(args, SBS_DIFF, env=env)
+        rc2, cfg, _ = ctx.run_delta(args + ["--show-config"], b"", env=env)
+        return args, rc, out, err, rc2, cfg
+    results = parallel_map(run, jobs)
+    for (v, which, source, mode), (args, rc, out, err, rc2, cfg) in zip(jobs, results):
+        rep.case(key=("given", v, which, source, tuple(mode)), nontrivial=True,
+                 sample=dict(op="given-style", value=v, options=which, source=source, mode=mode, rc=rc))
+        rep.count("given:%s:%s" % (source, "+".join(which)))
+        want = oracle_parse(v)
+        replay = dict(kind="given-style", args=args, stdin="SBS_DIFF", value=v, options=list(which), source=source,
+                      gitconfig=("[delta] " + "; ".join("%s = %s" % (o, v) for o in which)) if source == "gitconfig" else None)
+        if rc != 0 or rc2 != 0:
+            _viol(rep, "given:style-rejected", "delta fails on a style of the grammar", dict(replay, rc=[rc, rc2], stderr=err.decode("utf-8", "replace")[-200:]))
+            continue
+        dec = T.decode(out)
+        row = next((r for r in dec.rows if "betaq" in r.text()), None)
+        if row is None:
+            _viol(rep, "given:element-missing", "removed line not found", replay)
+            continue
+        t = row.text()
+        exp_fg = want["colors"][0] if want["colors"] else None
+        exp_bg = want["colors"][1] if len(want["colors"]) > 1 else None
+        for o in which:
+            k = t.find("betaq") if o == "minus-emph-style" else t.find("let")
+            cells = row.cells[k:k + (5 if o == "minus-emph-style" else 3)]
+            bad = [c for c in cells if c.fg != exp_fg or c.bg != exp_bg or c.attrs != frozenset(want["attrs"])]
+            if bad:
+                _viol(rep, "given:style-not-painted-as-given:%s:%s" % (o, source),
+                      "text painted with a style the user gave does not carry exactly the colours/attributes of that string",
+                      dict(replay, option=o, expected=T.style_key(exp_fg, exp_bg, frozenset(want["attrs"])),
+                           got=[T.style_key(c.fg, c.bg, c.attrs) for c in bad[:2]]))
+            shown = show_config_value(cfg, o)
+            if shown is None or oracle_parse(shown) != want:
+                _viol(rep, "given:show-config-reports-other-style:%s:%s" % (o, source),
+                      "--show-config reports a different style from the one the user gave",
+                      dict(replay, option=o, reported=shown))
+
+
 def run(ctx, rep):
     rep.rule = ("style strings: exhaustive <=3 tokens over a 14-word vocabulary (attributes, omit/raw, named, bright, "
                 "number, #rrggbb, normal/auto/syntax), all 256 palette numbers as fg and bg, random #rrggbb, random "
@@ -1270,6 +1344,7 @@ def run(ctx, rep):
     binary_oracle(ctx, rep)
     depth_uniformity_oracle(ctx, rep)
     indirect_styles_oracle(ctx, rep)
+    given_style_oracle(ctx, rep)
     show_config_round_trip(ctx, rep)
 
 
